@@ -346,6 +346,57 @@ def Ecs.ncat (e : Ecs) (s : List Nat) (o : Oracle) : EcsRes :=
     let s' := if s.length > room then s.take room else s
     { ecs := { r.ecs with chars := r.ecs.chars ++ s' }, ret := .ok (r.ecs.len + s'.length), rest := r.rest }
 
+/-- FN(nrcat): appends the characters in reverse order -/
+def Ecs.nrcat (e : Ecs) (s : List Nat) (o : Oracle) : EcsRes :=
+  let r := e.resizeForNcat s.length o
+  match r.ret with
+  | .error x => { ecs := e, ret := .error x, rest := r.rest }
+  | .ok _ =>
+    let room := r.ecs.capa - r.ecs.len
+    let s' := if s.length > room then s.take room else s
+    { ecs := { r.ecs with chars := r.ecs.chars ++ s'.reverse }, ret := .ok (r.ecs.len + s'.length), rest := r.rest }
+
+/-- FN(nccat): `while (len > 0) { if (ncat(&c, 1) == -1) return -1; len--; }` — one character at a time -/
+def Ecs.nccat (e : Ecs) (c : Nat) : Nat → Oracle → EcsRes
+  | 0, o => { ecs := e, ret := .ok e.len, rest := o }
+  | n + 1, o =>
+    let r := e.ncat [c] o
+    match r.ret with
+    | .error x => { ecs := r.ecs, ret := .error x, rest := r.rest }
+    | .ok _ => Ecs.nccat r.ecs c n r.rest
+
+/-- FN(del) -/
+def Ecs.del (e : Ecs) (index size : Nat) : Ecs :=
+  if e.hasPtr ∧ index < e.len ∧ size > 0 then
+    if index + size ≥ e.len then { e with chars := e.chars.take index }
+    else { e with chars := e.chars.take index ++ e.chars.drop (index + size) }
+  else e
+
+/-- `HAWK_MEMMOVE(&ptr[pos], repl, repl_len)` -/
+def overwrite (l : List Nat) (pos : Nat) (repl : List Nat) : List Nat :=
+  l.take pos ++ repl ++ l.drop (pos + repl.length)
+
+/-- FN(amend): replace `len` characters at `pos` by `repl` -/
+def Ecs.amend (e : Ecs) (pos len : Nat) (repl : List Nat) (o : Oracle) : EcsRes :=
+  let pos := if pos ≥ e.len then e.len else pos
+  let len := if len > e.len - pos then e.len - pos else len
+  if len > repl.length then
+    let e1 := e.del pos (len - repl.length)
+    let e2 := if repl.length > 0 then { e1 with chars := overwrite e1.chars pos repl } else e1
+    { ecs := e2, ret := .ok e2.len, rest := o }
+  else if len < repl.length then
+    let r := e.setlen (e.len + repl.length - len) o
+    match r.ret with
+    | .error x => { ecs := e, ret := .error x, rest := r.rest }
+    | .ok _ =>
+      -- memmove of the old tail [pos+len, old_len) to pos+repl_len, then the replacement
+      let moved := r.ecs.chars.take (pos + repl.length) ++ e.chars.drop (pos + len)
+      let e2 := { r.ecs with chars := overwrite moved pos repl }
+      { ecs := e2, ret := .ok e2.len, rest := r.rest }
+  else
+    let e2 := if repl.length > 0 then { e with chars := overwrite e.chars pos repl } else e
+    { ecs := e2, ret := .ok e2.len, rest := o }
+
 /-- FN(clear) -/
 def Ecs.clear (e : Ecs) : Ecs := { e with chars := [] }
 
